@@ -25,6 +25,7 @@ import vlib
 
 LEVEL = "model_checking"
 
+CLAIMED = True   # set by the lead after review; only claimed checks enter MANIFEST.json
 MANIFEST = dict(
     category="model_checking",
     technique="TLA+ spec of the searcher's block scheduler and of the sort order (TLC exhaustive over all small timestamp layouts / value tables) + transition-by-transition replay on the real scheduler functions and the real sort processor, and e2e replay of enumerated layouts through ingest/flush/rotate/query with head, sort and paging",
